@@ -13,6 +13,8 @@ ASSUMPTIONS = [
     "contents of encrypted object streams are not decrypted here (slot counts only); C05's reference decryptor covers them",
     "outputs above 150 kB are judged by size-independent theorems only (the extracted list-based reader is slow on them)",
     "qpdf --check is used only as the 're-reads its own output without structural warning' clause",
+    "byte-exact tie of xs_write_doc: the document handed to the model is the generated document as qpdf's parser holds it (a reference to an "
+    "undefined object is a direct null, or an indirect null object when the trailer names it and its number is below file size / 3); reading is C03's subject",
 ]
 
 MAXSIZE = 150000
@@ -240,7 +242,13 @@ def run(chk):
     chk.cov["rule"] = ("(input, writer configuration) pairs: generated documents (object model with every scalar kind, 90..260 extra objects around the "
                        "100-member boundary), one-page documents padded so that offsets straddle 2^16 around the linearization hint stream, inputs whose "
                        "header is relabelled below 1.5, repository corpus files incl. the recovered-trailer ones; each written by the real qpdf and read by "
-                       "the extracted strict reader + requested-form clauses; non-trivial = a write that completed (exit 0/3) and produced <= 150 kB, distinct by (input, configuration)")
+                       "the extracted strict reader + requested-form clauses; non-trivial = a write that completed (exit 0/3) and produced <= 150 kB, distinct by (input, configuration); "
+                       "part byte-exact-xref-stream-writer-model: generated documents aimed at the case splits of the object-stream / xref-stream writer (eligible counts "
+                       "1..201, xref offsets around 2^8 and 2^16, exclusions, null and dangling references), real output compared byte for byte with the extracted "
+                       "xs_write_doc and judged by the strict reader; non-trivial = byte-identical, distinct by document")
+    # ---- byte-exact correspondence of the extracted object-stream / xref-stream writer model (harness/c02xs.py)
+    import c02xs
+    c02xs.run_part(chk, wd, runner)
     inputs = build_inputs(chk, wd)
     cfgs = filecheck.CONFIGS_QUICK
     jobs = []
